@@ -41,6 +41,7 @@ Record env := mkEnv {
   tok : istr -> tokinfo;                     (* what the verifier sees in a string *)
   nchunks : istr -> nat;                     (* chunks of compressToken(s), >= 1 *)
   tmpl : N -> istr -> option istr;           (* header template n executed on token t: None = error *)
+  redir : istr -> istr;                      (* net/http.Redirect's rewriting of a scheme-less target (path cleaning) *)
 }.
 
 (* fixed entries of the intern table *)
@@ -425,7 +426,7 @@ Section Serve.
                   let target := if negb (N.eqb inc 0) && negb (N.eqb inc (c_callback cfg)) && local_path inc
                                 then inc else slash in
                   let sd5 := set_main 7 0 sd4 in
-                  (st1, mkResp 302 (Some (LPath target)) (save_cookies sd5) BNone None false [call] [])
+                  (st1, mkResp 302 (Some (LPath (redir E target))) (save_cookies sd5) BNone None false [call] [])
         end.
 
   (* refreshToken: (state, session, cookies emitted, calls, success) *)
